@@ -1,7 +1,7 @@
 #!/bin/bash
 # run every registered quick (or $1) check and print exit status and time
 tier=${1:-quick}
-cd /verif
+cd "$(dirname "$0")/.."
 for c in $(python3 -c "import json; print(' '.join(x['property_id'] for x in json.load(open('MANIFEST.json'))['checks']))"); do
   s=$(date +%s)
   out=$(bin/check $c $tier 2>/dev/null)
